@@ -53,8 +53,15 @@ Fixpoint first_empty_write (qs : list req) : option nat :=
   | q :: rest => if writes_empty q then Some O else option_map S (first_empty_write rest)
   end.
 
-(* a disagreement counts as the known deviation only if the engines still agree on every response before the
-   first write of an empty value *)
+Definition is_tikv (r : c12_run) : bool := match r_eng r with ETiKV => true | _ => false end.
+
+Definition agree_within (rs : list c12_run) : bool :=
+  match rs with [] => true | r0 :: rest => forallb (same_transcript r0) rest end.
+
+(* The known deviation (finding C12-F1): a write of an empty value fails on TiKV.  A disagreement counts as it only
+   if the history writes an empty value, the engines still agree on every response before the first such write,
+   and the disagreement is between the TiKV configurations on one side and the other engines on the other: the TiKV
+   runs agree among themselves, and so do memkv, Badger and the wrappers. *)
 Definition c12_oracle (c : c12_case) : option N :=
   match h_runs c with
   | [] => None
@@ -63,6 +70,8 @@ Definition c12_oracle (c : c12_case) : option N :=
       else match first_empty_write (h_reqs c) with
            | Some i =>
                if forallb (fun r => list_eqb resp_eqb (firstn i (r_resps r0)) (firstn i (r_resps r))) rest
+                  && agree_within (filter is_tikv (r0 :: rest))
+                  && agree_within (filter (fun r => negb (is_tikv r)) (r0 :: rest))
                then Some 1 else Some 0
            | None => Some 0
            end
